@@ -2,9 +2,65 @@
 loop over strings of unknown length; it is NOT under a deductive contract.  BOUNDED stand-in: native
 differential against an independent tokeniser written from the statement, over seeded documents x
 delimiter triples x line-break conventions x read chunkings x source kinds."""
-from pyvc.contract import set_scope
+from pyvc.contract import contract, set_scope
+from pyvc.tys import *
+from specs.tokens import *
+from specs.prim import *
 
 set_scope('contracts.rawx12file')
+
+# --- deductive: the segment loop of the tokeniser, for EVERY text, every terminator and EVERY chunking of the stream -----
+RAW = Obj('pyx12.rawx12file.RawX12File', fd=Obj('ext.Stream', rest=Str), buffer=Str, seg_term=StrN(1))
+
+contract('pyx12.rawx12file.RawX12File.__iter__',
+         self_type=RAW,
+         returns=NoneT,
+         requires=['len(self.seg_term) == 1', 'ord(self.seg_term) < 0x30000'],
+         raises={},
+         loops={0: dict(ghost={'tail': 'self.buffer + self.fd.rest'},
+                        ghost_update={'tail': 'self.buffer + self.fd.rest'},
+                        types={'tail': Str, 'line': Str, 'data': Str},
+                        invariant=['len(self.seg_term) == 1', 'ord(self.seg_term) < 0x30000'],
+                        step=['self.seg_term in tail',
+                              'self.buffer + self.fd.rest == after_piece(tail, self.seg_term)',
+                              "yields_in_iteration == (1 if token_of(tail, self.seg_term) != '' else 0)"],
+                        modifies=['self.buffer', 'self.fd.rest', 'line', 'data']),
+                1: dict(ghost={'t0': 'self.buffer + self.fd.rest'},
+                        types={'data': Str},
+                        invariant=['self.buffer + self.fd.rest == t0', 'len(self.seg_term) == 1', 'ord(self.seg_term) < 0x30000'],
+                        modifies=['self.buffer', 'self.fd.rest', 'data'])},
+         yield_ensures=["yielded_value == token_of(tail, self.seg_term)", "yielded_value != ''"],
+         ensures=["self.fd.rest == ''", 'self.seg_term not in self.buffer'],
+         build='build_raw_iter',
+         ghost={'replay_ensures': ['result == tokens(whole0, self.seg_term)'],
+                'search': {'self/.buffer': ['', 'A', 'A~', '~', '\nA~', 'A~\n', '~~', ' A~'],
+                           'self/.rest': ['', 'B~', '\nB~C~', '~', '\r\nB~', 'B~~C~\n', '\n'],
+                           'self/.chunk': [1, 2, 8192]}},
+         serves=['C01'],
+         note='one outer iteration = one unfolding of specs.tokens.tokens on (buffer + undelivered text): it consumes exactly the first '
+              'piece, yields exactly its token when that is not empty, whatever chunks read() delivers; the loop ends only when no '
+              'terminator is left.  By induction over the iterations the yielded lines are tokens(whole text) for every chunking.')
+
+RAW0 = Obj('pyx12.rawx12file.RawX12File')
+
+contract('pyx12.rawx12file.RawX12File.__init__',
+         self_type=RAW0,
+         params={'fin': Obj('ext.Stream', rest=Str)},
+         returns=NoneT,
+         loops={0: dict(ghost={'w0': 'line + self.fd.rest'},
+                        types={'line': Str, 'more': Str},
+                        invariant=['line + self.fd.rest == w0', 'len(line) <= 106'],
+                        modifies=['line', 'more', 'self.fd.rest'])},
+         raises={'X12Error': "not (len(old(fin.rest)) >= 106 and old(fin.rest)[:3] == 'ISA' and old(fin.rest)[84:89] in ('00401', '00501'))"},
+         ensures=['self.buffer + self.fd.rest == old(fin.rest)', 'len(old(fin.rest)) >= 106',
+                  'len(old(fin.rest)) < 106 or self.seg_term == old(fin.rest)[105]',
+                  'len(old(fin.rest)) < 106 or self.ele_term == old(fin.rest)[3]',
+                  'len(old(fin.rest)) < 106 or self.subele_term == old(fin.rest)[104]',
+                  "len(old(fin.rest)) < 106 or self.repetition_term == (old(fin.rest)[82] if old(fin.rest)[84:89] == '00501' else None)",
+                  'self.icvn == old(fin.rest)[84:89]', 'len(self.seg_term) == 1'],
+         serves=['C01'],
+         note='the delimiters are the characters at the fixed positions of the 106-character header of the WHOLE text, whatever chunks '
+              'the stream delivers; nothing of the text is lost (buffer + undelivered text == whole text)')
 
 
 def spec_tokens(text):
@@ -209,3 +265,29 @@ def bounded_normaliser(seed, tier):
                 os.unlink(os.path.join(d, f))
             os.rmdir(d)
     return {'function': 'pyx12.scripts.x12norm.main', 'evaluations': n, 'bound': '3 fixtures x option combinations (eol, fixcounting, -o, -i)', 'failures': failures[:8]}
+
+
+# ---- native replay for the tokeniser loop: a real RawX12File over a stream that delivers `rest` in chunks ------------------
+class _ChunkedStream(object):
+    def __init__(self, text, chunk):
+        self.rest, self.chunk = text, max(1, int(chunk))
+
+    def read(self, n=-1):
+        k = self.chunk if n is None or n < 0 else min(n, self.chunk)
+        d, self.rest = self.rest[:k], self.rest[k:]
+        return d
+
+
+def build_raw_iter(args):
+    import pyx12.rawx12file
+    st = args.get('self', {}) or {}
+    g = lambda k, d=None: st.get('.' + k, d)
+    term = g('seg_term') or '~'
+    if not isinstance(term, str) or len(term) != 1:
+        term = '~'
+    buf = g('buffer') if isinstance(g('buffer'), str) else ''
+    rest = g('rest') if isinstance(g('rest'), str) else (g('fd.rest') if isinstance(g('fd.rest'), str) else '')
+    raw = pyx12.rawx12file.RawX12File.__new__(pyx12.rawx12file.RawX12File)
+    raw.buffer, raw.seg_term = buf.replace('~', term), term
+    raw.fd = _ChunkedStream(rest.replace('~', term), g('chunk', 3) or 3)
+    return (lambda: pyx12.rawx12file.RawX12File.__iter__(raw)), (), {'self': raw, 'whole0': raw.buffer + raw.fd.rest}
